@@ -18,8 +18,8 @@ pub struct ProgCase {
 
 pub fn tape_strategy(max_len: usize) -> BoxedStrategy<Vec<u16>> {
     // low values select simple alternatives; mix uniform and low-biased entries
-    let entry = prop_oneof![3 => any::<u16>(), 1 => 0u16..4096, 1 => Just(0u16), 1 => 60000u16..=65535];
-    proptest::collection::vec(entry, 8..max_len).boxed()
+    let entry = prop_oneof![6 => any::<u16>(), 1 => 0u16..4096, 1 => Just(0u16), 1 => 60000u16..=65535];
+    proptest::collection::vec(entry, (max_len / 4).max(8)..max_len).boxed()
 }
 
 pub fn err_of(k: &ErrKind) -> Option<RefErr> {
@@ -79,7 +79,7 @@ impl Prop for Differential {
         "one case = a choice tape expanded into a well-typed core-language program (bindings, arithmetic, comparisons, if/while/for with break/continue, functions, recursion, lambdas, tuples, structs, enums, arrays, match, option, ? and !); (printed output, final value, runtime error kind) of the compiled program must equal the reference interpreter's; non-trivial = accepted by the compiler, reference specified, (>= 2 calls or >= 1 loop iteration), >= 1 heap value and non-empty output; distinct by program text"
     }
     fn n_cases(&self, tier: Tier) -> u32 {
-        tier.pick(4000, 100000)
+        tier.pick(12000, 150000)
     }
     fn strategy(&self, tier: Tier, _f: &Findings) -> BoxedStrategy<Self::Case> {
         let fl = Flags::core(tier.pick(12, 25), tier.pick(3, 4));
